@@ -1,6 +1,8 @@
 import PsV.Proofs.Nnls
 import PsV.Proofs.NnlsTerm
 import PsV.Proofs.NnlsExist
+import PsV.Proofs.WalkBlocks
+import PsV.Props.C12
 import Mathlib.Tactic.FinCases
 import Mathlib.Tactic.NormNum
 /-!
@@ -34,6 +36,13 @@ Proved for all sizes and all rational data about the executable definitions (sec
 * the `while (!feasible)` loop terminates within `n + 1` passes (`block3_inner_terminates`, `block3_exits`); an accepted
   projected step and an accepted unconstrained solve strictly decrease the objective
   (`walk_accepted_step_decreases`, `accepted_solve_decreases`).
+Third round (end of the file): the result loop of `walk_descents` organised in blocks of workers — every trial index
+looked at once, the last-trial test true for exactly one (block, worker) pair, the forced step taken for every worker
+count, the sequential `walkDescents` of the state machine equal to that loop (`walk_trials_visited_once`,
+`walk_last_trial_unique`, `walk_block_loop_sequential`, `walk_forced_step_reachable`, `walkDescents_is_block_loop`), and the
+witness for the multiplier `n_blocks` (`walk_wrong_multiplier_never_steps`); rows added to the full-size factor by
+`modify_factor_p` on the level of the represented matrix and `cholmod_rowadd`'s precondition
+(`modify_factor_add_rows_represents`, `modify_factor_add_rows_order_independent`, `modify_factor_settle_first_breaks_rowadd`).
 Still **not** proved: a decreasing measure for the outer `for` loop of BLOCK3 (the C code stores an unaccepted last
 trial of `walk_descents` and binds coefficients below `kkt_tolerance`, both of which can raise the objective; the cap
 `max_iter` is a real exit), and anything about the floating-point solves of the C code (covered by certificate checking).
@@ -531,5 +540,194 @@ gradient `−1` there) -/
 example : (∀ i, i < 2 → (fun i => decide (i = 0)) i = false → (fun _ => (0 : ℚ)) i = 0) ∧
     ∃ i, i < 2 ∧ (fun i => decide (i = 0)) i = true ∧ grad 2 exA exb (fun _ => 0) i ≠ 0 :=
   ⟨fun _ _ _ => rfl, 0, by norm_num, by simp, by rw [grad_zero]; simp [exb]⟩
+
+/-! ## the result loop of `walk_descents` for every number of line-search workers (seeded change C11-6)
+
+`Sync.Cfg` (C12): `c.n` workers (`get_nthreads()`), `c.m = n_alpha` trial steps, `c.blocks = ⌈m/n⌉`, `c.active i` = workers
+used in block `i`, `c.less a b` = "residual of trial `a` < residual of trial `b`".  `blockLoop c` is the coordinator's result
+loop of `walk_descents` after the hand-shake with the workers (block `i`, worker `j` ↦ trial index `i*n + j`; that every
+worker reports the trial it was given is `C12_each_trial_evaluated_once` / `C12_scanned_records`), `blockLoopL c mult` the same
+loop with the last-trial test `i*mult + j == n_alpha-1`.  `C12_result_is_sequential` proves that the *threaded* routine
+returns `selectSeq`; the theorems here are about the index arithmetic of the loop itself, which is what the seeded change
+C11-6 (`i*n_blocks + j`) breaks, and they connect C12's `selectSeq` with the sequential `walkScan` that `block3Run` executes. -/
+
+/-- **Every trial index is looked at exactly once**: for every number of workers `n ≥ 1` the scan organised in blocks
+    (block `i`, worker `j < active i ≤ n` ↦ index `i*n + j`) enumerates `0, 1, …, n_alpha-1`, each once, in ascending order. -/
+theorem walk_trials_visited_once (c : Sync.Cfg) (hn : 0 < c.n) :
+    trialIndices c = List.range c.m ∧ ∀ i j, j < c.active i → j < c.n :=
+  ⟨trialIndices_eq_range c hn, fun i _ hj => Nat.lt_of_lt_of_le hj (Sync.active_le c i)⟩
+
+/-- **The last-trial test `i*n_threads + j == n_alpha-1` holds for exactly one started (block, worker) pair**, for every
+    number of workers `n ≥ 1`: the forced step is reachable whatever `get_nthreads()` returns. -/
+theorem walk_last_trial_unique (c : Sync.Cfg) (hn : 0 < c.n) (hm : 1 ≤ c.m) :
+    ∃ i j, i < c.blocks ∧ j < c.active i ∧ j < c.n ∧ i * c.n + j = c.m - 1 ∧
+      ∀ i' j', i' < c.blocks → j' < c.active i' → i' * c.n + j' = c.m - 1 → i' = i ∧ j' = j := by
+  obtain ⟨h1, h2, h3⟩ := last_pair_exists c hn hm
+  exact ⟨_, _, h1, h2, Nat.mod_lt _ hn, h3, fun i' j' _ hj' h => last_pair_unique c hn i' j' hj' h⟩
+
+/-- **The loop as written is the sequential selection of C12**, for every number of workers `n ≥ 1` (hence the same for all). -/
+theorem walk_block_loop_sequential (c : Sync.Cfg) (hn : 0 < c.n) : blockLoop c = Sync.selectSeq c.less c.m :=
+  blockLoop_eq_selectSeq c hn
+
+/-- **The forced step is taken for every number of workers**: when no trial reduces the residual, the loop as written
+    chooses the last trial `n_alpha-1` and reports `feasible = false` (`success` is set: `walk_descents` copies that trial and
+    its `H1`, and `nnls_normal_block3` binds the blocking coefficients). -/
+theorem walk_forced_step_reachable (c : Sync.Cfg) (hn : 0 < c.n) (hm : 2 ≤ c.m)
+    (hno : ∀ k, 1 ≤ k → k < c.m → c.less k 0 = false) :
+    blockLoop c = (some 0, some (some (c.m - 1), false)) := by
+  obtain ⟨k, hk1, hkm, hsel, hor, _⟩ := C12_select_spec c.less c.m hm
+  have hk : k = c.m - 1 := by
+    rcases hor with h | h
+    · rw [hno k hk1 hkm] at h; cases h
+    · exact h
+  rw [walk_block_loop_sequential c hn, hsel, hno k hk1 hkm, hk]
+
+/-- **Why the seeded change C11-6 hangs** (`i*n_blocks + j == n_alpha-1`, one worker, `n_alpha ≥ 2`): no started
+    (block, worker) pair passes the test, so when no trial reduces the residual `success` is never set — `walk_descents`
+    returns `feasible = false` with `x` and `H1` unchanged and the `while (!feasible)` loop of `nnls_normal_block3` repeats the
+    same solve for ever.  (`n_alpha ≥ 3` in every call: index 0, distance 1 and at least one constraint crossing.) -/
+theorem walk_wrong_multiplier_never_steps (c : Sync.Cfg) (h1 : c.n = 1) (hm : 2 ≤ c.m)
+    (hno : ∀ k, 1 ≤ k → k < c.m → c.less k 0 = false) :
+    blockLoopL c c.blocks = (some 0, none) ∧
+      ∀ i j, i < c.blocks → j < c.active i → i * c.blocks + j ≠ c.m - 1 := by
+  refine ⟨?_, fun i j hi hj => wrong_multiplier_never_last c h1 hm i j hi hj⟩
+  have hb : 1 ≤ c.blocks := by rw [blocks_one c h1]; omega
+  exact blockLoopL_wrong_prefix c h1 hm hno c.blocks hb (Nat.le_refl _)
+
+/-- **The line search that `block3Run` executes is that loop**: for every number of workers `n ≥ 1` the block loop over the
+    trials of one call of `walkDescents` (current point, then the distances `walkAlphas`) chooses the index `k` whose
+    distance and `feasible` flag the sequential model `walkDescents` returns.  So the state machine of
+    `block3_exit_kkt` / `block3_inner_terminates`, which knows nothing of workers, describes the C routine for every
+    `OMP_NUM_THREADS` — as long as the loop is the one written (`blockLoop`). -/
+theorem walkDescents_is_block_loop (E : B3Env) (inF : ℕ → Bool) (x xF : ℕ → ℚ) (n : ℕ) (hn : 0 < n) :
+    let res0 := E.resid inF (trialVal inF x xF 0)
+    let as := walkAlphas E.n inF x xF
+    ∃ k, 1 ≤ k ∧ k ≤ as.length ∧
+      blockLoop (walkCfg E inF x xF res0 as n) = (some 0, some (some k, walkLess E inF x xF res0 as k 0)) ∧
+      walkDescents E inF x xF = (as.getD (k - 1) 0, walkLess E inF x xF res0 as k 0) := by
+  intro res0 as
+  have hlen : 1 ≤ as.length := by simp [as, walkAlphas]
+  have hless : ∀ j, 1 ≤ j → walkLess E inF x xF res0 as j 0
+      = decide (E.resid inF (trialVal inF x xF (as.getD (j - 1) 0)) < res0) := by
+    intro j hj
+    obtain ⟨j', rfl⟩ : ∃ j', j = j' + 1 := ⟨j - 1, by omega⟩
+    rfl
+  obtain ⟨k, hk1, hkm, hsel, hor, hbefore⟩ :=
+    C12_select_spec (walkLess E inF x xF res0 as) (as.length + 1) (by omega)
+  refine ⟨k, hk1, by omega, ?_, ?_⟩
+  · rw [walk_block_loop_sequential (walkCfg E inF x xF res0 as n) hn]; exact hsel
+  · have := walkScan_first_or_last E inF x xF res0 as k hk1 (by omega)
+      (fun j hj1 hj2 => by rw [← hless j hj1]; exact (hbefore j hj1 hj2).1)
+      (by
+        rcases hor with h | h
+        · left; rw [← hless k hk1]; exact h
+        · right; omega)
+    rw [hless k hk1]
+    exact this
+
+/-! ## rows added to the full-size factor by `modify_factor_p` (seeded changes C11-2, C11-5)
+
+Abstraction (`PsV/Model/WalkBlocks.lean`): the full-size factor is described by the matrix it represents (`repMat A S`: `A` on
+the passive set `S`, identity elsewhere); `rowAdd` is `cholmod_rowadd` with its documented precondition ("the kth row and
+column of L must originally be equal to the kth row and column of the identity matrix"), `getColumn` is `get_column`,
+`addRows` the `H2` loop as written, `addRowsSettled` the variant that moves all of `H2` into `F` before the first
+`get_column`.  The floating-point factor is not modelled; on the C side the multi-row path is exercised and judged through
+the KKT residual (input class 11 of the check). -/
+
+/-- **Rows added one at a time, each column taken from `A` restricted to `F ∪ {rows already added}`, yield the factor of
+    `A[F',F']`**: every `cholmod_rowadd` meets its precondition, and the represented matrix is `A` on `F' = F ∪ H2`,
+    identity elsewhere. -/
+theorem modify_factor_add_rows_represents (n : ℕ) (A : Mat) (S : ℕ → Bool) (H2 : List ℕ) (R : Mat)
+    (hsym : ∀ i j, i < n → j < n → A i j = A j i) (hlt : ∀ k ∈ H2, k < n) (hnd : H2.Nodup)
+    (hdisj : ∀ k ∈ H2, S k = false) (hR : AgreeOn n R (repMat A S)) :
+    ∃ R', addRows n A S H2 R = some R' ∧ AgreeOn n R' (repMat A (fun i => S i || H2.contains i)) :=
+  addRows_repMat n A hsym H2 S R hlt hnd hdisj hR
+
+/-- … **independently of the order of addition**, and the exact solve of the model on the enlarged passive set
+    (`exactEnv.solve`, i.e. `solveOn` on `F'`) is the solve with the represented matrix: the state machine's `solve` is
+    what a correctly updated factor computes. -/
+theorem modify_factor_add_rows_order_independent (n : ℕ) (A : Mat) (b : Vec) (S : ℕ → Bool) (H2 H2' : List ℕ) (R : Mat)
+    (hsym : ∀ i j, i < n → j < n → A i j = A j i) (hlt : ∀ k ∈ H2, k < n) (hnd : H2.Nodup)
+    (hdisj : ∀ k ∈ H2, S k = false) (hR : AgreeOn n R (repMat A S)) (hperm : H2.Perm H2') :
+    ∃ R1 R2, addRows n A S H2 R = some R1 ∧ addRows n A S H2' R = some R2 ∧ AgreeOn n R1 R2 ∧
+      ∀ P : List ℕ, (∀ i ∈ P, i < n ∧ (S i || H2.contains i) = true) →
+        solveOn n R1 b P = solveOn n A b P ∧ solveOn n R2 b P = solveOn n A b P := by
+  obtain ⟨R1, h1, hA1⟩ := addRows_repMat n A hsym H2 S R hlt hnd hdisj hR
+  obtain ⟨R2, h2, hA2⟩ := addRows_repMat n A hsym H2' S R (fun k hk => hlt k (hperm.mem_iff.mpr hk))
+    (hperm.nodup_iff.mp hnd) (fun k hk => hdisj k (hperm.mem_iff.mpr hk)) hR
+  have hS : (fun i => S i || H2'.contains i) = (fun i => S i || H2.contains i) := by
+    funext i; rw [hperm.contains_eq]
+  rw [hS] at hA2
+  refine ⟨R1, R2, h1, h2, fun i j hi hj => (hA1 i j hi hj).trans (hA2 i j hi hj).symm, fun P hP => ?_⟩
+  have hon : ∀ (R' : Mat), AgreeOn n R' (repMat A (fun i => S i || H2.contains i)) →
+      ∀ r ∈ P, ∀ c ∈ P, R' r c = A r c := by
+    intro R' hA r hr c hc
+    rw [hA r c (hP r hr).1 (hP c hc).1]
+    have hr' := (hP r hr).2
+    have hc' := (hP c hc).2
+    unfold repMat
+    simp only [hr', hc', Bool.and_self, if_true]
+  exact ⟨solveOn_congr n R1 A b P (hon R1 hA1), solveOn_congr n R2 A b P (hon R2 hA2)⟩
+
+/-- **Why the seeded changes C11-2 / C11-5 break the factor**: when all of `H2` is moved into `F` before the first
+    `get_column`, the column of the first row `k₁` carries the entry `A[k₂,k₁]` of a row that is still identity in the factor;
+    after that row/column `k₂` is no longer identity and the second `cholmod_rowadd` is called outside its precondition —
+    as soon as the first two released coefficients are coupled (`A[k₂,k₁] ≠ 0`).  With a single row (or uncoupled rows) the
+    two loops coincide, which is why small and sparse systems do not notice. -/
+theorem modify_factor_settle_first_breaks_rowadd (n : ℕ) (A : Mat) (Sfinal : ℕ → Bool) (k1 k2 : ℕ) (rest : List ℕ)
+    (R : Mat) (h1 : k1 < n) (hne : k1 ≠ k2) (hS2 : Sfinal k2 = true) (hc : A k2 k1 ≠ 0) :
+    addRowsSettled n A Sfinal (k1 :: k2 :: rest) R = none :=
+  addRowsSettled_coupled n A Sfinal k1 k2 rest R h1 hne hS2 hc
+
+/-! ### concrete instances for the two groups of theorems above -/
+
+/-- one worker, three trials, no trial reduces the residual: the loop as written takes the forced step, the loop with the
+    multiplier `n_blocks` never sets `success`; the same with three workers and four trials (two blocks) -/
+example : blockLoop { n := 1, m := 3, less := fun _ _ => false, repaired := true } = (some 0, some (some 2, false)) ∧
+    blockLoopL { n := 1, m := 3, less := fun _ _ => false, repaired := true } 3 = (some 0, none) ∧
+    blockLoop { n := 3, m := 4, less := fun _ _ => false, repaired := true } = (some 0, some (some 3, false)) ∧
+    blockLoopL { n := 3, m := 4, less := fun _ _ => false, repaired := true } 2 = (some 0, none) ∧
+    trialIndices { n := 3, m := 4, less := fun _ _ => false, repaired := true } = [0, 1, 2, 3] := by decide
+
+/-- hypotheses of `walk_forced_step_reachable` / `walk_wrong_multiplier_never_steps` -/
+example : (0 : ℕ) < 1 ∧ 2 ≤ 3 ∧ ∀ k, 1 ≤ k → k < 3 → (fun _ _ : ℕ => false) k 0 = false := ⟨by decide, by decide, fun _ _ _ => rfl⟩
+
+/-- a system of the check's corpus (bin/props/C11_forced_corpus.txt, n = 4) -/
+def exA4 : Mat := fun i j =>
+  (([[6, -6, -3, 2], [-6, 19, 13, -4], [-3, 13, 12, -4], [2, -4, -4, 12]] : List (List ℚ)).getD i []).getD j 0
+def exb4 : Vec := fun i => ([19, 0, -10, 9] : List ℚ).getD i 0
+
+/-- … on which the exact state machine takes the forced step: one line search, no trial reduces the residual
+    (`nForced = 1`), the run then converges to a KKT point -/
+example :
+    let r := block3Run (exactEnv 4 exA4 exb4 (1 / 11258999068) 120 24) fun i => -(exb4 i)
+    r.2 = B3Exit.converged ∧ r.1.nWalk = 1 ∧ r.1.nForced = 1 ∧ r.1.nFull = 2 ∧
+      kktCheck 4 exA4 exb4 (at0 r.1.x) (fun _ => 1 / 11258999068) = true := by
+  decide +kernel
+
+/-- a 3 × 3 symmetric matrix whose coefficients 1 and 2 are coupled; passive set `{0}`, both released in one call -/
+def exA3 : Mat := fun i j => (([[4, -1, -1], [-1, 3, 1], [-1, 1, 3]] : List (List ℚ)).getD i []).getD j 0
+
+/-- as written the two rows are added (`modify_factor_add_rows_represents`: the result is `exA3`); with the sets settled
+    first the second `cholmod_rowadd` is outside its precondition (`modify_factor_settle_first_breaks_rowadd`); a single
+    row is added identically by both loops -/
+example :
+    ((addRows 3 exA3 (fun i => i == 0) [1, 2] (repMat exA3 fun i => i == 0)).map fun R =>
+        (List.range 3).map fun i => (List.range 3).map (R i)) = some [[4, -1, -1], [-1, 3, 1], [-1, 1, 3]] ∧
+    (addRowsSettled 3 exA3 (fun _ => true) [1, 2] (repMat exA3 fun i => i == 0)).isNone = true ∧
+    ((addRowsSettled 3 exA3 (fun i => i == 0 || i == 1) [1] (repMat exA3 fun i => i == 0)).map fun R =>
+        (List.range 3).map fun i => (List.range 3).map (R i)) =
+      ((addRows 3 exA3 (fun i => i == 0) [1] (repMat exA3 fun i => i == 0)).map fun R =>
+        (List.range 3).map fun i => (List.range 3).map (R i)) := by
+  decide +kernel
+
+/-- hypotheses of `modify_factor_add_rows_represents` for that instance -/
+example : (∀ i j, i < 3 → j < 3 → exA3 i j = exA3 j i) ∧ (∀ k ∈ [1, 2], k < 3) ∧ [1, 2].Nodup ∧
+    (∀ k ∈ [1, 2], (fun i : ℕ => i == 0) k = false) ∧ AgreeOn 3 (repMat exA3 fun i => i == 0) (repMat exA3 fun i => i == 0) ∧
+    exA3 2 1 ≠ 0 := by
+  refine ⟨fun i j hi hj => ?_, by decide, by decide, by decide, fun _ _ _ _ => rfl, by decide +kernel⟩
+  have hi' : i = 0 ∨ i = 1 ∨ i = 2 := by omega
+  have hj' : j = 0 ∨ j = 1 ∨ j = 2 := by omega
+  rcases hi' with rfl | rfl | rfl <;> rcases hj' with rfl | rfl | rfl <;> rfl
 
 end PsV
